@@ -363,25 +363,27 @@ Section Passes.
 Variable sc : schema.
 Variable d : dict.
 Variable t : owners_table.
+Variable ko : key_owners.
 
-Definition fib (md : module) (s : string) : option entry := find_identity_base sc d t md s.
+Definition fib (o : option module) (md : module) (s : string) : option entry :=
+  find_identity_base_in sc d t o md s.
 
 (* ---------------- pass 2 *)
-Lemma p2_base_fold e : forall bs st,
-  let st' := fold_left (pass2_base sc d t e) bs st in
+Lemma p2_base_fold e o : forall bs st,
+  let st' := fold_left (pass2_base sc d t e o) bs st in
   (forall b x, In x (fst st' b) <->
-     In x (fst st b) \/ (x = did_of e /\ exists s be, In s bs /\ fib (fst e) s = Some be /\ did_of be = b)) /\
+     In x (fst st b) \/ (x = did_of e /\ exists s be, In s bs /\ fib o (fst e) s = Some be /\ did_of be = b)) /\
   (forall er, In er (snd st') <->
-     In er (snd st) \/ exists s, er = ErrBase (did_of e) s /\ In s bs /\ fib (fst e) s = None).
+     In er (snd st) \/ exists s, er = ErrBase (did_of e) s /\ In s bs /\ fib o (fst e) s = None).
 Proof.
   induction bs as [|s bs IH]; intros st; cbn [fold_left].
   - split; intros; simpl.
     + split; [auto|]. intros [H|(_ & s & be & [] & _)]; auto.
     + split; [auto|]. intros [H|(s & _ & [] & _)]; auto.
-  - specialize (IH (pass2_base sc d t e st s)). cbv zeta in IH. destruct IH as (IH1 & IH2).
+  - specialize (IH (pass2_base sc d t e o st s)). cbv zeta in IH. destruct IH as (IH1 & IH2).
     split.
-    + intros b x. rewrite IH1. unfold pass2_base. change (find_identity_base sc d t (fst e) s) with (fib (fst e) s).
-      destruct (fib (fst e) s) as [be0|] eqn:E; cbn [fst snd].
+    + intros b x. rewrite IH1. unfold pass2_base. change (find_identity_base_in sc d t o (fst e) s) with (fib o (fst e) s).
+      destruct (fib o (fst e) s) as [be0|] eqn:E; cbn [fst snd].
       * unfold vset. destruct (String.eqb_spec b (did_of be0)) as [->|N].
         -- rewrite in_app_iff. cbn [In]. split.
            ++ intros [[H|[<-|[]]]|(Hx & s' & be & Hs & Hf & Hb)]; auto.
@@ -401,8 +403,8 @@ Proof.
         -- intros [H|(Hx & s' & be & [<-|Hs] & Hf & Hb)]; auto.
            ++ congruence.
            ++ right. split; auto. exists s', be. auto.
-    + intros er. rewrite IH2. unfold pass2_base. change (find_identity_base sc d t (fst e) s) with (fib (fst e) s).
-      destruct (fib (fst e) s) as [be0|] eqn:E; cbn [fst snd].
+    + intros er. rewrite IH2. unfold pass2_base. change (find_identity_base_in sc d t o (fst e) s) with (fib o (fst e) s).
+      destruct (fib o (fst e) s) as [be0|] eqn:E; cbn [fst snd].
       * split.
         -- intros [H|(s' & He & Hs & Hn)]; auto. right. exists s'. simpl; auto.
         -- intros [H|(s' & He & [<-|Hs] & Hn)]; auto.
@@ -419,14 +421,14 @@ Qed.
 (* x is registered as a direct child of b while the keys of order are visited *)
 Definition direct (order : list key) (b x : key) : Prop :=
   exists k e s be, In k order /\ dict_get d k = Some e /\ x = did_of e /\ In s (i_bases (snd e)) /\
-                   fib (fst e) s = Some be /\ did_of be = b.
+                   fib (dict_get ko k) (fst e) s = Some be /\ did_of be = b.
 
 Definition base_err (order : list key) (er : err) : Prop :=
   exists k e s, er = ErrBase (did_of e) s /\ In k order /\ dict_get d k = Some e /\ In s (i_bases (snd e)) /\
-                fib (fst e) s = None.
+                fib (dict_get ko k) (fst e) s = None.
 
 Lemma p2_fold : forall order st,
-  let st' := fold_left (pass2_step sc d t) order st in
+  let st' := fold_left (pass2_step sc d t ko) order st in
   (forall b x, In x (fst st' b) <-> In x (fst st b) \/ direct order b x) /\
   (forall er, In er (snd st') <-> In er (snd st) \/ base_err order er).
 Proof.
@@ -434,10 +436,10 @@ Proof.
   - split; intros; simpl.
     + split; [auto|]. intros [H|(k & e & s & be & [] & _)]; auto.
     + split; [auto|]. intros [H|(k & e & s & _ & [] & _)]; auto.
-  - specialize (IH (pass2_step sc d t st k)). cbv zeta in IH. destruct IH as (IH1 & IH2). split.
+  - specialize (IH (pass2_step sc d t ko st k)). cbv zeta in IH. destruct IH as (IH1 & IH2). split.
     + intros b x. rewrite IH1. unfold pass2_step.
       destruct (dict_get d k) as [e|] eqn:E.
-      * destruct (p2_base_fold e (i_bases (snd e)) st) as (B1 & _). rewrite B1. split.
+      * destruct (p2_base_fold e (dict_get ko k) (i_bases (snd e)) st) as (B1 & _). rewrite B1. split.
         -- intros [[H|(Hx & s & be & Hs & Hf & Hb)]|(k' & e' & s & be & Hk & Hg & Hx & Hs & Hf & Hb)]; auto.
            ++ right. exists k, e, s, be. simpl; auto 10.
            ++ right. exists k', e', s, be. simpl; auto 10.
@@ -451,7 +453,7 @@ Proof.
            ++ right. exists k', e', s, be. auto.
     + intros er. rewrite IH2. unfold pass2_step.
       destruct (dict_get d k) as [e|] eqn:E.
-      * destruct (p2_base_fold e (i_bases (snd e)) st) as (_ & B2). rewrite B2. split.
+      * destruct (p2_base_fold e (dict_get ko k) (i_bases (snd e)) st) as (_ & B2). rewrite B2. split.
         -- intros [[H|(s & -> & Hs & Hn)]|(k' & e' & s & He & Hk & Hg & Hs & Hn)]; auto.
            ++ right. exists k, e, s. simpl; auto 10.
            ++ right. exists k', e', s. simpl; auto 10.
@@ -466,8 +468,8 @@ Proof.
 Qed.
 
 Lemma pass2_spec order :
-  (forall b x, In x (fst (pass2 sc d t order) b) <-> direct order b x) /\
-  (forall er, In er (snd (pass2 sc d t order)) <-> base_err order er).
+  (forall b x, In x (fst (pass2 sc d t ko order) b) <-> direct order b x) /\
+  (forall er, In er (snd (pass2 sc d t ko order)) <-> base_err order er).
 Proof.
   destruct (p2_fold order (vempty, [])) as (H1 & H2). split.
   - intros b x. unfold pass2. rewrite H1. simpl. tauto.
@@ -813,7 +815,7 @@ Qed.
 End Registry.
 
 (* ---------------- dictionaries *)
-Lemma dict_get_set d k e k' :
+Lemma dict_get_set {A} (d : list (key * A)) k e k' :
   dict_get (dict_set d k e) k' = if k =? k' then Some e else dict_get d k'.
 Proof.
   induction d as [|[k0 e0] r IH]; cbn [dict_set dict_get].
@@ -824,7 +826,7 @@ Proof.
       destruct (String.eqb_spec k k'); [congruence|reflexivity].
 Qed.
 
-Lemma dict_keys_get d k : In k (dict_keys d) <-> dict_get d k <> None.
+Lemma dict_keys_get {A} (d : list (key * A)) k : In k (dict_keys d) <-> dict_get d k <> None.
 Proof.
   unfold dict_keys. induction d as [|[k0 e0] r IH]; cbn [map dict_get In fst].
   - split; [tauto|congruence].
@@ -833,7 +835,7 @@ Proof.
     + rewrite <- IH. split; [intros [H|H]; [congruence|auto]|auto].
 Qed.
 
-Lemma dict_get_in d k e : dict_get d k = Some e -> In (k, e) d.
+Lemma dict_get_in {A} (d : list (key * A)) k e : dict_get d k = Some e -> In (k, e) d.
 Proof.
   induction d as [|[k0 e0] r IH]; cbn [dict_get]; [discriminate|].
   destruct (String.eqb_spec k0 k) as [->|N].
@@ -929,13 +931,24 @@ Proof.
   - induction 1 as [o r e H|o r e H _ IH]; simpl; rewrite H; auto.
 Qed.
 
-Lemma fib_spec sc d t md s e :
-  find_identity_base sc d t md s = Some e <-> resolves sc (dict_get d) (owners_get t) md s e.
+Definition opt_cons (o : option module) (l : list module) : list module :=
+  match o with Some x => x :: l | None => l end.
+
+Lemma local_find d o l nm :
+  match match o with Some x => dict_get d (identity_key x nm) | None => None end with
+  | Some e => Some e
+  | None => dict_find d l nm
+  end = dict_find d (opt_cons o l) nm.
+Proof. destruct o as [x|]; reflexivity. Qed.
+
+Lemma fib_spec sc d t o md s e :
+  find_identity_base_in sc d t o md s = Some e <-> resolves sc (dict_get d) (owners_get t) o md s e.
 Proof.
-  unfold find_identity_base. split.
+  unfold find_identity_base_in. split.
   - pose proof (get_prefix_splits s) as Hs. destruct (get_prefix s) as [pfx nm]. cbn [fst snd] in Hs.
     destruct ((pfx =? "") || (pfx =? m_prefix md)) eqn:El.
-    + intro H. exists pfx, nm, (owners_get t md). split; auto. split; [|apply dict_find_spec; auto].
+    + rewrite local_find. intro H. exists pfx, nm, (opt_cons o (owners_get t md)). split; auto.
+      split; [|apply dict_find_spec; auto].
       apply sl_local. apply orb_prop in El. destruct El as [E|E]; apply String.eqb_eq in E; auto.
     + apply orb_false_elim in El. destruct El as (E1 & E2).
       apply String.eqb_neq in E1. apply String.eqb_neq in E2.
@@ -948,7 +961,7 @@ Proof.
     destruct Ht as [Hl|n dt ext N1 N2 Hi Hfm].
     + assert (El : (pfx =? "") || (pfx =? m_prefix md) = true).
       { destruct Hl as [->| ->]; [reflexivity|]. rewrite String.eqb_refl. apply orb_true_r. }
-      rewrite El. exact Hf.
+      rewrite El. rewrite local_find. exact Hf.
     + apply String.eqb_neq in N1. apply String.eqb_neq in N2. rewrite N1, N2. cbn [orb].
       apply import_target_spec in Hi. rewrite Hi, Hfm. exact Hf.
 Qed.
@@ -1060,9 +1073,11 @@ Section Master.
 Variable sc : schema.
 Variable d : dict.
 Variable t : owners_table.
+Variable kt : key_owners.
 Let g := dict_get d.
 Let ow := owners_get t.
 Let dl := decl_get d.
+Let ko := dict_get kt.
 Let ks := dict_keys d.
 Let U := map (fun ke : key * entry => did_of (snd ke)) d.
 
@@ -1070,19 +1085,19 @@ Variable o2 o3 : list string -> list string.
 Hypothesis Ho2 : is_oracle o2.
 Hypothesis Ho3 : is_oracle o3.
 
-Let st2 := pass2 sc d t (o2 ks).
+Let st2 := pass2 sc d t kt (o2 ks).
 Let V0 := fst st2.
 
 Lemma in_order o k : is_oracle o -> (In k (o ks) <-> g k <> None).
 Proof. intro Ho. rewrite (oracle_in o _ _ Ho). unfold ks, g. apply dict_keys_get. Qed.
 
-Lemma V0_edge b x : In x (V0 b) <-> edge sc g ow x b.
+Lemma V0_edge b x : In x (V0 b) <-> edge sc g ow ko x b.
 Proof.
-  unfold V0, st2. rewrite (proj1 (pass2_spec sc d t (o2 ks))). unfold direct, edge, declares. split.
+  unfold V0, st2. rewrite (proj1 (pass2_spec sc d t kt (o2 ks))). unfold direct, edge, declares. split.
   - intros (k & e & s & be & Hk & Hg & -> & Hs & Hf & <-).
-    exists e, s, be. split; [split; [reflexivity|exists k; exact Hg]|]. split; auto. split; auto.
+    exists k, e, s, be. split; [exact Hg|]. split; auto. split; auto. split; auto.
     apply fib_spec. exact Hf.
-  - intros (ex & s & eb & (Hd & k & Hg) & Hs & Hr & ->).
+  - intros (k & ex & s & eb & Hg & Hd & Hs & Hr & ->).
     exists k, ex, s, eb. split. { apply (in_order o2 k Ho2). fold g. congruence. }
     split; auto. split; auto. split; auto. split; auto. apply fib_spec. exact Hr.
 Qed.
@@ -1090,9 +1105,9 @@ Qed.
 Lemma found_filed nm l e : found g nm l e -> filed_decl d (did_of e).
 Proof. induction 1 as [o r e H|o r e _ _ IH]; auto. exists (identity_key o nm), e. auto. Qed.
 
-Lemma edge_filed x b : edge sc g ow x b -> filed_decl d x /\ filed_decl d b.
+Lemma edge_filed x b : edge sc g ow ko x b -> filed_decl d x /\ filed_decl d b.
 Proof.
-  intros (ex & s & eb & (Hd & k & Hg) & _ & (p & n & l & _ & _ & Hf) & ->). split.
+  intros (k & ex & s & eb & Hg & Hd & _ & (p & n & l & _ & _ & Hf) & ->). split.
   - exists k, ex. auto.
   - eapply found_filed; eauto.
 Qed.
@@ -1106,10 +1121,10 @@ Qed.
 Lemma V0U x c : In c (V0 x) -> In c U.
 Proof. rewrite V0_edge. intro H. apply filed_in_U. apply (edge_filed _ _ H). Qed.
 
-Lemma Dr_derived b x : clos_trans _ (Dr V0) b x <-> derived sc g ow b x.
+Lemma Dr_derived b x : clos_trans _ (Dr V0) b x <-> derived sc g ow ko b x.
 Proof. unfold derived. apply clos_trans_ext. intros u v. unfold Dr, Rv. apply V0_edge. Qed.
 
-Lemma derived_filed b x : derived sc g ow b x -> filed_decl d b /\ filed_decl d x.
+Lemma derived_filed b x : derived sc g ow ko b x -> filed_decl d b /\ filed_decl d x.
 Proof.
   intro H. split.
   - destruct (tc_first _ _ _ H) as (z & Hz). apply (edge_filed _ _ Hz).
@@ -1118,17 +1133,17 @@ Qed.
 
 Definition base_error (er : err) : Prop :=
   exists k e s, er = ErrBase (did_of e) s /\ g k = Some e /\ In s (i_bases (snd e)) /\
-                ~ exists eb, resolves sc g ow (fst e) s eb.
-Definition cycle_error (er : err) : Prop := exists x, er = ErrCycle x /\ derived sc g ow x x.
+                ~ exists eb, resolves sc g ow (ko k) (fst e) s eb.
+Definition cycle_error (er : err) : Prop := exists x, er = ErrCycle x /\ derived sc g ow ko x x.
 
-Lemma base_err_iff er : base_err sc d t (o2 ks) er <-> base_error er.
+Lemma base_err_iff er : base_err sc d t kt (o2 ks) er <-> base_error er.
 Proof.
   unfold base_err, base_error. split; intros (k & e & s & He & H).
   - destruct H as (_ & Hg & Hs & Hn). exists k, e, s. repeat split; auto.
-    intros (eb & Hb). apply fib_spec in Hb. unfold fib in Hn. congruence.
+    intros (eb & Hb). apply fib_spec in Hb. unfold fib in Hn. unfold ko in Hb. congruence.
   - destruct H as (Hg & Hs & Hn). exists k, e, s. split; auto. split.
     + apply (in_order o2 k Ho2). congruence.
-    + repeat split; auto. unfold fib. destruct (find_identity_base sc d t (fst e) s) as [eb|] eqn:E; auto.
+    + repeat split; auto. unfold fib. destruct (find_identity_base_in sc d t (dict_get kt k) (fst e) s) as [eb|] eqn:E; auto.
       exfalso. apply Hn. exists eb. apply fib_spec. exact E.
 Qed.
 
@@ -1145,14 +1160,14 @@ Qed.
 Lemma master :
   exists V errs, pass3 (length ks + 1) sc d (o3 ks) st2 = Some (V, errs) /\
     (forall b, sorted_keys sc dl (V b)) /\
-    (forall b x, In x (V b) <-> derived sc g ow b x) /\
+    (forall b x, In x (V b) <-> derived sc g ow ko b x) /\
     (forall er, In er errs <-> base_error er \/ cycle_error er).
 Proof.
   assert (HL : length ks = length U). { unfold ks, U, dict_keys. rewrite !map_length. reflexivity. }
   rewrite HL.
   destruct (p3_fold sc d V0 U V0U (o3 ks) V0 (snd st2) (Jinv_V0 V0)) as (V & errs & E & J & G & _ & X).
   exists V, errs. split. { rewrite <- E. f_equal. unfold V0. destruct st2; reflexivity. }
-  assert (Hin : forall b x, In x (V b) <-> derived sc g ow b x).
+  assert (Hin : forall b x, In x (V b) <-> derived sc g ow ko b x).
   { intros b x. split.
     - intro H. apply Dr_derived. apply J. exact H.
     - intro H. destruct (proj1 (derived_filed _ _ H)) as (k & e & Hk & ->).
@@ -1161,13 +1176,13 @@ Proof.
       + apply I. apply Dr_derived. exact H. }
   split; [|split; [exact Hin|]].
   - intro b. destruct (V b) as [|y r] eqn:Eb; [constructor|]. rewrite <- Eb.
-    assert (Hy : derived sc g ow b y). { apply Hin. rewrite Eb. left; auto. }
+    assert (Hy : derived sc g ow ko b y). { apply Hin. rewrite Eb. left; auto. }
     destruct (proj1 (derived_filed _ _ Hy)) as (k & e & Hk & ->).
     destruct (G k e) as (N & S & _); auto.
     + apply (in_order o3 k Ho3). fold g in Hk. congruence.
     + apply SS_strict; auto. rewrite Forall_forall. intros x Hx. apply Hin in Hx.
       apply (derived_filed _ _ Hx).
-  - intro er. rewrite X. unfold st2. rewrite (proj2 (pass2_spec sc d t (o2 ks))).
+  - intro er. rewrite X. unfold st2. rewrite (proj2 (pass2_spec sc d t kt (o2 ks))).
     rewrite base_err_iff, cyc_err_iff. tauto.
 Qed.
 End Master.
@@ -1176,32 +1191,33 @@ End Master.
 Definition graph_of (r : result) : lookup := dict_get (r_dict r).
 Definition owners_of (r : result) : module -> list module := owners_get (r_owners r).
 Definition decls_of (r : result) : lookup := decl_get (r_dict r).
+Definition key_owner (r : result) : key -> option module := dict_get (r_key_owners r).
 
 Theorem resolve_spec sc o2 o3 : is_oracle o2 -> is_oracle o3 ->
   exists r, resolve_identities o2 o3 sc = Some r /\
-    r_dict r = fst (pass1 sc) /\ r_owners r = snd (pass1 sc) /\
+    r_dict r = fst (pass1 sc) /\ r_owners r = snd (pass1 sc) /\ r_key_owners r = pass1_owner sc /\
     (forall b, sorted_keys sc (decls_of r) (r_values r b)) /\
-    (forall b x, In x (r_values r b) <-> derived sc (graph_of r) (owners_of r) b x) /\
+    (forall b x, In x (r_values r b) <-> derived sc (graph_of r) (owners_of r) (key_owner r) b x) /\
     (forall er, In er (r_errors r) <->
-                In er (link_errors sc) \/ base_error sc (r_dict r) (r_owners r) er \/
-                cycle_error sc (r_dict r) (r_owners r) er).
+                In er (link_errors sc) \/ base_error sc (r_dict r) (r_owners r) (r_key_owners r) er \/
+                cycle_error sc (r_dict r) (r_owners r) (r_key_owners r) er).
 Proof.
   intros Ho2 Ho3. unfold resolve_identities. destruct (pass1 sc) as [d t] eqn:E1. cbn [fst snd].
-  destruct (master sc d t o2 o3 Ho2 Ho3) as (V & errs & E & S & I & X).
-  rewrite E. eexists. split; [reflexivity|]. unfold graph_of, owners_of, decls_of.
-  cbn [r_dict r_owners r_values r_errors].
-  split; [reflexivity|]. split; [reflexivity|]. split; [exact S|]. split; [exact I|].
+  destruct (master sc d t (pass1_owner sc) o2 o3 Ho2 Ho3) as (V & errs & E & S & I & X).
+  rewrite E. eexists. split; [reflexivity|]. unfold graph_of, owners_of, decls_of, key_owner.
+  cbn [r_dict r_owners r_key_owners r_values r_errors].
+  split; [reflexivity|]. split; [reflexivity|]. split; [reflexivity|]. split; [exact S|]. split; [exact I|].
   intro er. rewrite in_app_iff, X. tauto.
 Qed.
 
 Lemma resolve_inv sc o2 o3 r : is_oracle o2 -> is_oracle o3 ->
   resolve_identities o2 o3 sc = Some r ->
-  r_dict r = fst (pass1 sc) /\ r_owners r = snd (pass1 sc) /\
+  r_dict r = fst (pass1 sc) /\ r_owners r = snd (pass1 sc) /\ r_key_owners r = pass1_owner sc /\
   (forall b, sorted_keys sc (decls_of r) (r_values r b)) /\
-  (forall b x, In x (r_values r b) <-> derived sc (graph_of r) (owners_of r) b x) /\
+  (forall b x, In x (r_values r b) <-> derived sc (graph_of r) (owners_of r) (key_owner r) b x) /\
   (forall er, In er (r_errors r) <->
-              In er (link_errors sc) \/ base_error sc (r_dict r) (r_owners r) er \/
-              cycle_error sc (r_dict r) (r_owners r) er).
+              In er (link_errors sc) \/ base_error sc (r_dict r) (r_owners r) (r_key_owners r) er \/
+              cycle_error sc (r_dict r) (r_owners r) (r_key_owners r) er).
 Proof.
   intros Ho2 Ho3 H. destruct (resolve_spec sc o2 o3 Ho2 Ho3) as (r' & E & P). rewrite H in E.
   inversion E; subst. exact P.
@@ -1218,6 +1234,7 @@ Hypothesis Ho3 : is_oracle o3.
 Hypothesis Hrun : resolve_identities o2 o3 sc = Some r.
 Let g := graph_of r.
 Let ow := owners_of r.
+Let ko := key_owner r.
 
 Theorem values_sorted b : sorted_keys sc (decls_of r) (r_values r b).
 Proof. apply (resolve_inv sc o2 o3 r Ho2 Ho3 Hrun). Qed.
@@ -1225,44 +1242,44 @@ Proof. apply (resolve_inv sc o2 o3 r Ho2 Ho3 Hrun). Qed.
 Theorem values_nodup b : NoDup (r_values r b).
 Proof. eapply sorted_keys_nodup. apply values_sorted. Qed.
 
-Theorem values_exact b x : In x (r_values r b) <-> derived sc g ow b x.
+Theorem values_exact b x : In x (r_values r b) <-> derived sc g ow ko b x.
 Proof. apply (resolve_inv sc o2 o3 r Ho2 Ho3 Hrun). Qed.
 
-Theorem values_not_self b : ~ derived sc g ow b b -> ~ In b (r_values r b).
+Theorem values_not_self b : ~ derived sc g ow ko b b -> ~ In b (r_values r b).
 Proof. intros H Hin. apply H. apply values_exact. exact Hin. Qed.
 
 Theorem values_are_identities b x : In x (r_values r b) ->
   (exists e, declares g x e) /\ (exists e, declares g b e).
 Proof.
-  intro H. apply values_exact in H. destruct (derived_filed sc _ _ _ _ H) as ((k & e & Hk & ->) & (k' & e' & Hk' & ->)).
+  intro H. apply values_exact in H. destruct (derived_filed sc _ _ _ _ _ H) as ((k & e & Hk & ->) & (k' & e' & Hk' & ->)).
   split; [exists e'|exists e]; (split; [reflexivity|eauto]).
 Qed.
 
 Lemma errors_iff er : In er (r_errors r) <->
-  In er (link_errors sc) \/ base_error sc (r_dict r) (r_owners r) er \/ cycle_error sc (r_dict r) (r_owners r) er.
+  In er (link_errors sc) \/ base_error sc (r_dict r) (r_owners r) (r_key_owners r) er \/ cycle_error sc (r_dict r) (r_owners r) (r_key_owners r) er.
 Proof. apply (resolve_inv sc o2 o3 r Ho2 Ho3 Hrun). Qed.
 
 Theorem error_undefined_base k e s :
-  g k = Some e -> In s (i_bases (snd e)) -> (~ exists eb, resolves sc g ow (fst e) s eb) ->
+  g k = Some e -> In s (i_bases (snd e)) -> (~ exists eb, resolves sc g ow (ko k) (fst e) s eb) ->
   In (ErrBase (did_of e) s) (r_errors r).
 Proof.
   intros Hg Hs Hn. apply errors_iff. right. left. exists k, e, s. auto.
 Qed.
 
-Theorem error_cycle x : derived sc g ow x x -> In (ErrCycle x) (r_errors r).
+Theorem error_cycle x : derived sc g ow ko x x -> In (ErrCycle x) (r_errors r).
 Proof. intro H. apply errors_iff. right. right. exists x. auto. Qed.
 
 Theorem error_link er : In er (link_errors sc) -> In er (r_errors r).
 Proof. intro H. apply errors_iff. auto. Qed.
 
 Theorem errors_none_iff :
-  r_errors r = [] <-> link_errors sc = [] /\ all_resolve sc g ow /\ acyclic sc g ow.
+  r_errors r = [] <-> link_errors sc = [] /\ all_resolve sc g ow ko /\ acyclic sc g ow ko.
 Proof.
   rewrite nil_iff. split.
   - intro H. split; [|split].
     + apply nil_iff. intros er He. apply (H er). apply errors_iff. auto.
     + intros k e s Hg Hs.
-      destruct (find_identity_base sc (r_dict r) (r_owners r) (fst e) s) as [eb|] eqn:E.
+      destruct (find_identity_base_in sc (r_dict r) (r_owners r) (ko k) (fst e) s) as [eb|] eqn:E.
       * exists eb. apply fib_spec. exact E.
       * exfalso. apply (H (ErrBase (did_of e) s)). apply error_undefined_base with k; auto.
         intros (eb & Hb). apply fib_spec in Hb. congruence.
@@ -1276,11 +1293,11 @@ Qed.
 Theorem identityref_spec sub fulln s b :
   identityref_base sc r sub fulln s = Some b <->
   exists md e, find (fun m => Bool.eqb (m_sub m) sub && (full_name m =? fulln)) sc = Some md /\
-               resolves sc g ow md s e /\ b = did_of e.
+               resolves sc g ow None md s e /\ b = did_of e.
 Proof.
-  unfold identityref_base. split.
+  unfold identityref_base, find_identity_base. split.
   - destruct (find _ sc) as [md|]; [|discriminate].
-    destruct (find_identity_base sc (r_dict r) (r_owners r) md s) as [e|] eqn:E; [|discriminate].
+    destruct (find_identity_base_in sc (r_dict r) (r_owners r) None md s) as [e|] eqn:E; [|discriminate].
     intro H. inversion H; subst. exists md, e. split; auto. split; auto. apply fib_spec. exact E.
   - intros (md & e & -> & H & ->). apply fib_spec in H. rewrite H. reflexivity.
 Qed.
@@ -1290,23 +1307,24 @@ End Run.
 Theorem oracle_independent sc o2 o3 o2' o3' r r' :
   is_oracle o2 -> is_oracle o3 -> is_oracle o2' -> is_oracle o3' ->
   resolve_identities o2 o3 sc = Some r -> resolve_identities o2' o3' sc = Some r' ->
-  r_dict r = r_dict r' /\ r_owners r = r_owners r' /\
+  r_dict r = r_dict r' /\ r_owners r = r_owners r' /\ r_key_owners r = r_key_owners r' /\
   (forall b, r_values r b = r_values r' b) /\
   (r_errors r = [] <-> r_errors r' = []).
 Proof.
   intros H2 H3 H2' H3' E E'.
-  destruct (resolve_inv sc o2 o3 r H2 H3 E) as (D & T & _).
-  destruct (resolve_inv sc o2' o3' r' H2' H3' E') as (D' & T' & _).
+  destruct (resolve_inv sc o2 o3 r H2 H3 E) as (D & T & K & _).
+  destruct (resolve_inv sc o2' o3' r' H2' H3' E') as (D' & T' & K' & _).
   assert (Hd : r_dict r = r_dict r') by congruence.
   assert (Ht : r_owners r = r_owners r') by congruence.
-  split; [exact Hd|]. split; [exact Ht|]. split.
+  assert (Hk : r_key_owners r = r_key_owners r') by congruence.
+  split; [exact Hd|]. split; [exact Ht|]. split; [exact Hk|]. split.
   - intro b. apply (strict_sorted_unique sc (decls_of r)).
     + apply (values_sorted sc o2 o3 r H2 H3 E).
     + unfold decls_of. rewrite Hd. apply (values_sorted sc o2' o3' r' H2' H3' E').
     + intro x. rewrite (values_exact sc o2 o3 r H2 H3 E), (values_exact sc o2' o3' r' H2' H3' E').
-      unfold graph_of, owners_of. rewrite Hd, Ht. tauto.
+      unfold graph_of, owners_of, key_owner. rewrite Hd, Ht, Hk. tauto.
   - rewrite (errors_none_iff sc o2 o3 r H2 H3 E), (errors_none_iff sc o2' o3' r' H2' H3' E').
-    unfold graph_of, owners_of. rewrite Hd, Ht. tauto.
+    unfold graph_of, owners_of, key_owner. rewrite Hd, Ht, Hk. tauto.
 Qed.
 
 Lemma ord_id_oracle : is_oracle ord_id.
@@ -1389,10 +1407,10 @@ Proof.
 Qed.
 
 (* ---------------- the dictionary *)
-Definition set_all (d : dict) (l : list (key * entry)) : dict :=
+Definition set_all {A} (d : list (key * A)) (l : list (key * A)) : list (key * A) :=
   fold_left (fun d ke => dict_set d (fst ke) (snd ke)) l d.
 
-Lemma set_all_get : forall l d k,
+Lemma set_all_get {A} : forall (l d : list (key * A)) k,
   (dict_get (set_all d l) k = dict_get d k /\ forall e, ~ In (k, e) l) \/
   (exists e, In (k, e) l /\ dict_get (set_all d l) k = Some e).
 Proof.
@@ -1474,6 +1492,57 @@ Proof.
   - exists e'. split; auto. apply insertions_spec. exact H1.
 Qed.
 
+(* the owner recorded with each key *)
+Definition owner_entries (md m : module) : list (key * module) :=
+  map (fun i => (identity_key (owner_for sc md m) (i_name i), owner_for sc md m)) (m_idents m).
+Definition owner_insertions : list (key * module) :=
+  flat_map (fun md => flat_map (owner_entries md) (whole_module sc md)) (sorted_modules sc false).
+
+Lemma register_part_owner_eq md t m :
+  register_part_owner sc md t m = set_all t (owner_entries md m).
+Proof.
+  unfold register_part_owner, set_all, owner_entries.
+  generalize (m_idents m) as l. intro l. revert t.
+  induction l as [|i l IH]; intro t; simpl; auto.
+Qed.
+
+Lemma pass1_owner_eq : pass1_owner sc = set_all [] owner_insertions.
+Proof.
+  unfold pass1_owner, owner_insertions, set_all. rewrite fold_left_flat_map.
+  apply fold_left_ext. intros t md. rewrite fold_left_flat_map.
+  apply fold_left_ext. intros t' m. apply register_part_owner_eq.
+Qed.
+
+Lemma owner_insertions_spec k o : In (k, o) owner_insertions <-> key_owner_of sc k o.
+Proof.
+  unfold owner_insertions, key_owner_of. rewrite in_flat_map. split.
+  - intros (md & Hmd & H). apply loaded_sorted in Hmd.
+    apply in_flat_map in H. destruct H as (m & Hm & H).
+    unfold owner_entries in H. apply in_map_iff in H. destruct H as (i & Hi & Hin).
+    inversion Hi; subst. exists md, m, i. split; auto. split; [apply whole_module_spec; auto|auto].
+  - intros (md & m & i & L & P & Hi & -> & ->).
+    exists md. split; [apply loaded_sorted; auto|].
+    apply in_flat_map. exists m. split; [apply whole_module_spec; auto|].
+    unfold owner_entries. apply in_map_iff. exists i. auto.
+Qed.
+
+Lemma key_owner_sound k o : dict_get (pass1_owner sc) k = Some o -> key_owner_of sc k o.
+Proof.
+  rewrite pass1_owner_eq. intro H.
+  destruct (set_all_get owner_insertions [] k) as [(H1 & _)|(o' & H1 & H2)].
+  - rewrite H in H1. discriminate.
+  - rewrite H in H2. inversion H2; subst. apply owner_insertions_spec. exact H1.
+Qed.
+
+Lemma key_owner_complete k o : key_owner_of sc k o ->
+  exists o', dict_get (pass1_owner sc) k = Some o' /\ key_owner_of sc k o'.
+Proof.
+  intro H. apply owner_insertions_spec in H. rewrite pass1_owner_eq.
+  destruct (set_all_get owner_insertions [] k) as [(_ & H2)|(o' & H1 & H2)].
+  - exfalso. eapply H2; eauto.
+  - exists o'. split; auto. apply owner_insertions_spec. exact H1.
+Qed.
+
 Lemma dict_spec : consistent sc -> forall k e, dict_get (fst (pass1 sc)) k = Some e <-> filed sc k e.
 Proof.
   intros Hc k e. split; [apply dict_sound|].
@@ -1497,6 +1566,17 @@ Proof. rewrite (proj1 (resolve_inv sc o2 o3 r Ho2 Ho3 Hrun)). apply dict_complet
 Theorem dictionary_spec : consistent sc -> forall k e, dict_get (r_dict r) k = Some e <-> filed sc k e.
 Proof. rewrite (proj1 (resolve_inv sc o2 o3 r Ho2 Ho3 Hrun)). apply dict_spec; auto. Qed.
 
+Theorem key_owner_run_sound k o : dict_get (r_key_owners r) k = Some o -> key_owner_of sc k o.
+Proof.
+  destruct (resolve_inv sc o2 o3 r Ho2 Ho3 Hrun) as (_ & _ & -> & _). apply key_owner_sound; auto.
+Qed.
+
+Theorem key_owner_run_complete k o : key_owner_of sc k o ->
+  exists o', dict_get (r_key_owners r) k = Some o' /\ key_owner_of sc k o'.
+Proof.
+  destruct (resolve_inv sc o2 o3 r Ho2 Ho3 Hrun) as (_ & _ & -> & _). apply key_owner_complete; auto.
+Qed.
+
 Theorem error_missing_link m n :
   visible sc m ->
   (exists dt, In (n, dt) (m_includes m) /\ find_module sc true n dt = None) \/
@@ -1510,7 +1590,8 @@ Qed.
 
 Theorem errors_none_iff' :
   r_errors r = [] <->
-  links_ok sc /\ all_resolve sc (graph_of r) (owners_of r) /\ acyclic sc (graph_of r) (owners_of r).
+  links_ok sc /\ all_resolve sc (graph_of r) (owners_of r) (key_owner r) /\
+  acyclic sc (graph_of r) (owners_of r) (key_owner r).
 Proof.
   rewrite (errors_none_iff sc o2 o3 r Ho2 Ho3 Hrun). rewrite (link_errors_nil sc Hwf). tauto.
 Qed.
